@@ -691,6 +691,34 @@ def new_db(seed):
     return con
 
 
+ROW_CAP = 20000      # rows fetched per statement; a cross join of many sources can yield 8**n rows
+STEP_CAP = 400        # progress callbacks (every 50000 VM steps) before a statement is interrupted
+
+
+class TooManyRows(Exception):
+    pass
+
+
+def guard(con):
+    """Bound one connection's statements: interrupt after STEP_CAP * 50000 virtual-machine steps."""
+    box = [0]
+
+    def tick():
+        box[0] += 1
+        return 1 if box[0] > STEP_CAP else 0
+
+    con.set_progress_handler(tick, 50000)
+    return box
+
+
+def rows(con, sql):
+    cur = con.execute(sql)
+    out = cur.fetchmany(ROW_CAP + 1)
+    if len(out) > ROW_CAP:
+        raise TooManyRows()
+    return out
+
+
 def explain(con, sql):
     return [tuple(r[1:7]) for r in con.execute("EXPLAIN " + sql)]
 
@@ -789,9 +817,14 @@ def run_case(case, mon):
             c = new_db("db%d:%s" % (i, case["s"])) if i else con
             try:
                 if p["k"] in ("select", "setop"):
+                    box = guard(c)
                     try:
-                        r1 = c.execute(sql).fetchall()
-                        r2 = c.execute(ref).fetchall()
+                        r1 = rows(c, sql)
+                        box[0] = 0
+                        r2 = rows(c, ref)
+                    except TooManyRows:
+                        mon.count("skipped_result_over_row_cap")
+                        break
                     except sqlite3.Error as e:
                         mon.count("execution_errors")
                         mon.add("execution_errors", str(e)[:50])
@@ -818,10 +851,12 @@ def run_case(case, mon):
                             i, sql[:300], r1[:4], ref[:300], r2[:4]), {"program": p, "sql": sql, "ref": ref})
                         return
                 else:
+                    box = guard(c)
                     try:
                         c.execute("BEGIN")
                         c.execute(sql)
                         d1 = dump(c)
+                        box[0] = 0
                         c.execute("ROLLBACK")
                         c.execute("BEGIN")
                         c.execute(ref)
@@ -843,7 +878,8 @@ def run_case(case, mon):
             finally:
                 if c is not con:
                     c.close()
-        mon.count("bytecode_different_results_equal")
+        else:
+            mon.count("bytecode_different_results_equal")
     finally:
         con.close()
 
